@@ -21,6 +21,7 @@ def main():
         from harness import bf_sim                     # noqa
         from harness import lm_sim                     # noqa
         from harness import staging_sim                # noqa
+        from harness import script_sim                 # noqa
         fn = builders.BUILDERS.get(case['function'])
         if fn is None:
             out = dict(confirmed=None,
